@@ -33,6 +33,7 @@ TraceNext ==
   \/ IsEv("drop_handle") /\ DropHandle(Ev.h) /\ LiveOk
   \/ IsEv("drop_pkg") /\ DropPkg(Ev.m) /\ LiveOk
   \/ IsEv("drop_rt") /\ DropRuntime /\ LiveOk
+  \/ IsEv("add_const") /\ AddConst /\ LiveOk
   \/ IsEv("move") /\ MoveToThread(Ev.h) /\ LiveOk /\ ResOk
   \/ IsEv("into_func") /\ IntoFunc(Ev.h, Ev.c) /\ LiveOk
   \/ IsEv("call_closure") /\ CallClosure(Ev.c) /\ LiveOk /\ ResOk
